@@ -171,6 +171,10 @@ def run_case(case):
                 viol.append({"monitor": "M-immut", "mech": "literal-operand-modified", "msg": f"literal operand #{j} was modified in place: {b.ravel()[:4]} vs {a.ravel()[:4]}"})
     # ---- M-alias after the final backward
     tens = {n: v for n, v in it.env.items() if mgrun.is_tensor(v)}
+    for n, v in list(tens.items()):   # t.copy() of a view (and of its base): the copy's gradient must be its own array
+        if v.base is not None and v.grad is not None and len(tens) < 40:
+            tens["copy:" + n] = v.copy()
+            cnt["copies_checked"] = cnt.get("copies_checked", 0) + 1
     grads = {n: v.grad for n, v in tens.items()}
     gn = [n for n, g in grads.items() if g is not None and g.size]
     callers = caller_objects(it)
